@@ -171,6 +171,10 @@ func findEndTime(moov *mp4.MoovBox, durationMS int) (endTime, endTimescale uint6
 		if !foundSyncFrame {
 			return 0, 0, fmt.Errorf("did not find any syncframe at or after time")
 		}
+	} else if lastSampleNr > 1 {
+		// No stss box means that all samples are sync samples,
+		// so the sample at or after endTime is the first one to be left out.
+		lastSampleNr--
 	}
 	lastTime, lastDur := stts.GetDecodeTime(lastSampleNr)
 	endTime = lastTime + uint64(lastDur)
